@@ -21,7 +21,7 @@
      kind, is a member of the set it names — a record that is no variant of the run is covered by no used read and may neither
      share a set with another call (`same-set-iff-connected`) nor be phased on its own (`phased-but-not-accessible`).
 """
-import json, os, shutil
+import json, os, shutil, sys
 
 RULE = ("an incidence structure (phased positions, reads as position lists with sample ids, optional master block and "
         "het map), or a CLI run reduced to (accessible positions, traced reads, master block, phase sets of the output "
@@ -35,7 +35,9 @@ MANIFEST = dict(
          "independent BFS oracle is evaluated on the implementation's output (trace and output VCF); deepening: a model of "
          "phase.py between read selection and the writer (merge_readsets, accessible positions, per-family / per-chromosome "
          "dicts, read list) composed with the C04 writer and C09 decoder models, with end-to-end theorems from the selected "
-         "reads to the decoded phase set of every written call, tied to whole CLI runs (`c03.pipeline`)",
+         "reads to the decoded phase set of every written call, tied to whole CLI runs (`c03.pipeline`); round 10: the identifier as "
+         "TEXT (type rule of missing_headers for the predefined FORMAT keys, htslib's rendering of an integer under Type=Integer / "
+         "Type=Float: `c03.pstype`), whole runs at large coordinates x header declarations judged from the output text (F140)",
     design_ref="DESIGN.md §5 C03",
     note="trusted: Lean kernel, axioms ⊆ {propext, Classical.choice, Quot.sound}; hand-written model (differential "
          "correspondence: quick ~4 200 in-process cases + ~48 CLI runs); allele detection, read selection and the solver's "
@@ -778,6 +780,184 @@ def pedigree_families(ped_lines, phased_samples):
     return {s: sorted(g) for s, g in group.items()}
 
 
+# ---- the phase set identifier as TEXT (round 10, F140): what a reader of the file sees, not what pysam's typed access returns
+_DECIMAL = None
+
+
+def text_ids(fmt_text, col):
+    """the identifier token(s) a call's TEXT carries for its phase set ([] = the call makes no phase statement or has no id):
+    a heterozygous `|` genotype with a PS value -> that PS token; otherwise an HP value -> the prefixes in front of `-<hap>`"""
+    keys = fmt_text.split(":") if fmt_text else []
+    vals = col.split(":")
+    d = {k: (vals[i] if i < len(vals) else ".") for i, k in enumerate(keys)}
+    gt = d.get("GT", ".")
+    if "|" in gt and "/" not in gt:
+        al = gt.split("|")
+        if "." not in al and len(set(al)) > 1:
+            return [d["PS"]] if d.get("PS", ".") not in (".", "") else []
+    hp = d.get("HP", ".")
+    if hp not in (".", ""):
+        return sorted({x.rsplit("-", 1)[0] if "-" in x else x for x in hp.split(",")})
+    return []
+
+
+def is_decimal_position(tok):
+    global _DECIMAL
+    if _DECIMAL is None:
+        import re
+        _DECIMAL = re.compile(r"[1-9][0-9]*\Z")
+    return bool(_DECIMAL.match(tok))
+
+
+def text_phase_oracle(ctx, case, chrom, fam, sidx, rin, rout, elig, left):
+    """every phased call of a family member at a variant of the run: its identifier TOKEN is the decimal integer = 1-based POS of the
+    leftmost variant of its read-connected component, and two calls carry the same token iff they are connected"""
+    lg = case["params"].get("large") or {}
+    for s in fam:
+        seen = {}                # token -> (component, position)
+        of_comp = {}             # component -> token
+        for i, r in enumerate(rout):
+            if rin[i]["chrom"] != chrom or i not in elig or r["pos"] not in left or r.get("fmt_text") is None:
+                continue
+            col = r["sample_text"][sidx[s]]
+            toks = text_ids(r["fmt_text"], col)
+            if not toks:
+                continue
+            pos, comp = r["pos"], left[r["pos"]]
+            bad = [t for t in toks if not is_decimal_position(t)]
+            if bad or len(toks) > 1:
+                ctx.fail(f"sample {s}: the call at {chrom}:{pos + 1} is written as {r['fmt_text']} {col}: its phase set identifier "
+                         f"{(bad or toks)[0]!r} is not the decimal number {comp + 1} (the 1-based position of the leftmost variant of its "
+                         f"read-connected component)" + (f"; the input header declares PS as {lg.get('ps')}" if lg else ""), case,
+                         key="ps-id-not-integer-position")
+                return True
+            tok = toks[0]
+            if tok in seen and seen[tok][0] != comp:
+                ctx.fail(f"sample {s}: {chrom}:{seen[tok][1] + 1} and {chrom}:{pos + 1} both carry the phase set identifier {tok!r} but are "
+                         f"not connected by reads used for phasing (leftmost variants {seen[tok][0] + 1} and {comp + 1})", case,
+                         key="same-set-iff-connected")
+                return
+            if comp in of_comp and of_comp[comp] != tok:
+                ctx.fail(f"sample {s}: {chrom}:{pos + 1} carries the identifier {tok!r}, another call of its read-connected component "
+                         f"(leftmost variant {comp + 1}) carries {of_comp[comp]!r}", case, key="same-set-iff-connected")
+                return
+            seen.setdefault(tok, (comp, pos)); of_comp.setdefault(comp, tok)
+
+
+PSTYPE_KEYS = ["GL", "GQ", "GT", "HP", "PQ", "PS", "HS", "AD", "XX"]
+PSTYPE_NUMBERS = [1, 2, ".", "A", "G", "R"]
+PSTYPE_TYPES = ["Integer", "Float", "String", "Character"]
+
+
+def do_pstype(ctx, batch):
+    """the type rule of `missing_headers` for the predefined FORMAT keys (every key x Number x Type, one header line per file) and the
+    PS type of the writer's output header against the decision table of `Model/C03Header.lean` (as coded / as repaired), and htslib's
+    text of integers under `Type=Integer` / `Type=Float` against `renderDec` / `renderFloatG`"""
+    import pysam
+    from whatshap import vcf as V
+    d = os.path.join(ctx.workdir(), "pstype")
+    os.makedirs(d, exist_ok=True)
+    path = os.path.join(d, "h.vcf")
+    decls, impl, ps_out = [], [], []
+    verbosity = pysam.set_verbosity(0)          # htslib warns about every non-standard declaration
+
+    def write(key, number, typ, body="chr1\t5\t.\tA\tC\t.\t.\t.\tGT\t0/1\n"):
+        with open(path, "w") as f:
+            f.write("##fileformat=VCFv4.2\n##contig=<ID=chr1,length=300000000>\n")
+            if key != "GT":
+                f.write('##FORMAT=<ID=GT,Number=1,Type=String,Description="Genotype">\n')
+            if key is not None:
+                f.write(f'##FORMAT=<ID={key},Number={number},Type={typ},Description="x">\n')
+            f.write("#CHROM\tPOS\tID\tREF\tALT\tQUAL\tFILTER\tINFO\tFORMAT\ts1\n" + body)
+
+    for key in PSTYPE_KEYS:
+        for number in PSTYPE_NUMBERS:
+            for typ in PSTYPE_TYPES:
+                write(key, number, typ)
+                try:
+                    _, formats, _ = V.missing_headers(path)
+                    res = "rewrite" if key in formats else "accept"
+                except V.VcfError:
+                    res = "refuse"
+                except OSError:
+                    continue          # htslib cannot read the record under this declaration (GT typed Integer / Float): no input
+                decls.append([key, number, typ]); impl.append(res)
+                out_t = "-"
+                if key == "PS":
+                    try:
+                        with open(path + ".out", "w") as fo:
+                            w = V.PhasedVcfWriter(path, None, fo, tag="PS")
+                            out_t = w._writer.header.formats["PS"].type
+                            w.close()
+                    except V.VcfError:
+                        out_t = None
+                ps_out.append(out_t)
+                ctx.evaluated()
+    write(None, None, None)
+    with open(path + ".out", "w") as fo:
+        w = V.PhasedVcfWriter(path, None, fo, tag="PS")
+        absent_t = w._writer.header.formats["PS"].type
+        w.close()
+    # ---- htslib's text of an integer under the two types
+    rng = ctx.rng
+    ints = [1, 9, 10, 999999, 1000000, 1000001, 9999994, 9999995, 9999996, 16777215, 16777216, 16777217, 20000001, 20000004, 20000203,
+            123456500, 123456496, 123456504, 99999950, 99999949, 536870911, 2147483647, 2147483583, 2147483584, 1234565, 12345650, 12345750]
+    for _ in range(150 if ctx.quick else 3000):
+        k = rng.choice([6, 7, 7, 8, 8, 9, 9])
+        ints.append(min(rng.randrange(10 ** (k - 1), 10 ** k), 2 ** 31 - 1))
+    for _ in range(60 if ctx.quick else 1000):
+        # next to a rounding boundary of the 6th significant digit / of the 24-bit mantissa
+        k = rng.choice([7, 8, 9])
+        base = rng.randrange(10 ** 5, 10 ** 6) * 10 ** (k - 6) + 5 * 10 ** (k - 7)
+        ints.append(max(1, min(base + rng.choice([-9, -8, -4, -1, 0, 1, 4, 8, 9]), 2 ** 31 - 1)))
+    texts = {}
+    for typ in ("Integer", "Float"):
+        hdr = pysam.VariantHeader()
+        hdr.add_line("##contig=<ID=chr1,length=2147483647>")
+        hdr.add_line('##FORMAT=<ID=GT,Number=1,Type=String,Description="Genotype">')
+        hdr.add_line(f'##FORMAT=<ID=PS,Number=1,Type={typ},Description="x">')
+        hdr.add_sample("s1")
+        out = os.path.join(d, f"r_{typ}.vcf")
+        with pysam.VariantFile(out, "w", header=hdr) as vf:
+            for j, n in enumerate(ints):
+                rec = vf.new_record(contig="chr1", start=j, alleles=("A", "C"))
+                rec.samples["s1"]["GT"] = (0, 1)
+                rec.samples["s1"]["PS"] = n
+                vf.write(rec)
+        texts[typ] = [l.rstrip("\n").split("\t")[9].split(":")[1] for l in open(out) if not l.startswith("#")]
+    shutil.rmtree(d, ignore_errors=True)
+    pysam.set_verbosity(verbosity)
+    case = {"kind": "pstype"}
+
+    def cb(req, ans):
+        ctx.validated()
+        if "coded" not in ans:
+            ctx.disagree("c03.pstype", case, "ok", ans); return
+        norm = lambda l: ["accept" if x == "not-predefined" else x for x in l]
+        coded, fixed = norm(ans["coded"]), norm(ans["fixed"])
+        which = "as-coded" if impl == coded and ps_out == ans["ps_out_coded"] else \
+                "as-repaired" if impl == fixed and ps_out == ans["ps_out_fixed"] else None
+        ctx.dist("pstype_rule_of_missing_headers", which)
+        if which is None:
+            diff = [(dc, i, c, f) for dc, i, c, f in zip(decls, impl, coded, fixed) if i != c or i != f]
+            diff2 = [(dc, i, c, f) for dc, i, c, f in zip(decls, ps_out, ans["ps_out_coded"], ans["ps_out_fixed"]) if i != c or i != f]
+            if os.environ.get("C03_DEBUG"):
+                print("pstype", diff[:12], diff2[:12], file=sys.stderr)
+            ctx.disagree("c03.pstype", case, {"decision": [x[:2] for x in diff][:8], "ps_output_type": [x[:2] for x in diff2][:8]},
+                         {"decision(coded,fixed)": [x[2:] for x in diff][:8], "ps_output_type(coded,fixed)": [x[2:] for x in diff2][:8]})
+        if absent_t != ans["ps_out_absent"]:
+            ctx.disagree("c03.pstype(absent)", case, absent_t, ans["ps_out_absent"])
+        for n, ti, tf, mi, mf in zip(ints, texts["Integer"], texts["Float"], ans["as_integer"], ans["as_float"]):
+            if (ti, tf) != (mi, mf):
+                ctx.disagree("c03.pstype(text)", {"kind": "pstype", "n": n}, {"Integer": ti, "Float": tf}, {"Integer": mi, "Float": mf})
+                break
+            if not (is_decimal_position(ti) and int(ti) == n):
+                ctx.fail(f"htslib writes the Integer-typed identifier {n} as {ti!r}", {"kind": "pstype", "n": n}, key="ps-id-not-integer-position")
+                break
+        ctx.dist("pstype_float_tokens_that_are_not_the_integer", sum(1 for n, tf in zip(ints, texts["Float"]) if tf != str(n)) * 100 // len(ints))
+    batch.add({"op": "c03.pstype", "decls": decls, "ints": ints}, cb)
+
+
 def run_pipe(ctx, batch, case):
     from harness.gen import sim, c03_pipe as P, c04_records as R
     p = case["params"]
@@ -796,7 +976,11 @@ def run_pipe(ctx, batch, case):
         ctx.dist("pipe_options", "".join(ch for ch, k in (("D", "distrust"), ("H", "include_hom"), ("G", "no_genetic"), ("S", "only_snvs"),
                                                            ("C", "chrom_sel"), ("s", "sample_sel"), ("L", "read_list"), ("I", "ignore_rg"),
                                                            ("M", "merge_reads"), ("V", "phased_vcf_input"), ("N", "dup_names"),
-                                                           ("d", "decor"), ("R", "rephase"), ("X", "mixed")) if p.get(k)) or "-")
+                                                           ("d", "decor"), ("R", "rephase"), ("X", "mixed"), ("B", "large")) if p.get(k)) or "-")
+        if p.get("large"):
+            ctx.dist("pipe_large_header_decl(PS/HP/PQ)", f"{p['large']['ps']}/{p['large']['hp']}/{p['large']['pq']}")
+            ctx.dist("pipe_large_outcome", f"PS {p['large']['ps']}: " + ("phased" if rc == 0 else "refused (PS type)" if "non-standard type" in se
+                                                                          else "error"))
         if rc != 0:
             last = (se.strip().splitlines() or ["?"])[-1][:200]
             if "duplicate read name" in se and p["dup_names"]:
@@ -961,6 +1145,12 @@ def check_pipe(ctx, batch, case, sc, samples, rin, rout, trace, stderr, read_row
                 ctx.fail(f"{chrom} {fam}: read list has {len(rows_here)} rows for {n_reads} reads used for phasing", case, key="read-list-row")
         sets_here = set()
         comp_names = set(left.values())
+        # (an identifier that is no decimal number is reported once, under its own key; the typed comparison below would repeat it)
+        id_not_decimal = text_phase_oracle(ctx, case, chrom, fam, sidx, rin, rout, elig, left)
+        if p.get("large"):
+            lm = sorted({c + 1 for c in left.values()})
+            ctx.dist("pipe_large_neighbouring_components_sharing_6_digits", min(sum(1 for x, y in zip(lm, lm[1:]) if "%.6g" % x == "%.6g" % y), 6))
+            ctx.dist("pipe_large_position_digits", len(str(lm[0])) if lm else 0)
         for s in fam:
             sr = t["superreads"][s]
             sr_al = {a[0]: (a[1], b[1]) for a, b in zip(sr[0]["variants"], sr[1]["variants"])}
@@ -996,6 +1186,8 @@ def check_pipe(ctx, batch, case, sc, samples, rin, rout, trace, stderr, read_row
                              key="phased-but-not-accessible")
                     continue
                 if ph[0] != left[pos] + 1:
+                    if id_not_decimal:
+                        break
                     ctx.fail(f"sample {s}: variant at {chrom}:{pos + 1} has phase set {ph[0]}; the leftmost variant connected to it by the "
                              f"selected reads of {fam}{' and the master block' if master else ''} is at {left[pos] + 1}", case,
                              key="ps-not-leftmost-connected")
@@ -1122,6 +1314,8 @@ def run_case(ctx, batch, case):
         run_pipe(ctx, batch, case)
     elif k == "pipe-family":
         run_pipe(ctx, batch, case["case"])
+    elif k == "pstype":
+        do_pstype(ctx, batch)
 
 
 def run(ctx):
@@ -1132,6 +1326,9 @@ def run(ctx):
         shutil.rmtree(ctx.workdir(), ignore_errors=True); return
     for _, c in ctx.corpus():
         run_case(ctx, batch, c)
+    if os.environ.get("C03_ONLY_LARGE"):        # development aid: corpus + the large-coordinate / header-declaration stream only
+        run_large(ctx, batch, rng)
+        shutil.rmtree(ctx.workdir(), ignore_errors=True); return
     if os.environ.get("C03_ONLY_MIXED"):        # development aid: only the family-plus-singles stream (after the corpus)
         from harness.gen import c03_pipe as P
         for _ in range((12 if ctx.quick else 120) * ctx.scale):
@@ -1174,8 +1371,21 @@ def run(ctx):
     for _ in range((12 if ctx.quick else 120) * ctx.scale):
         run_pipe(ctx, batch, P.gen_case(rng, mixed=True))
     batch.flush()
+    # LARGE COORDINATES (contigs of 2*10^6 ... 5.4*10^8, positions of 7-9 digits, neighbouring components whose leftmost positions
+    # agree in their first 6-7 digits) x HEADER DECLARATIONS of PS / HP / PQ in the input (absent, standard, PS Float / Number=. /
+    # String ...; a refusal is fine), both tags, 1-4 samples, every third run re-phasing an earlier output, every fifth a family plus
+    # singles; the oracle reads the identifier from the output TEXT
+    run_large(ctx, batch, rng)
     G.assert_overlay_in_use(ctx.overlay)
     shutil.rmtree(ctx.workdir(), ignore_errors=True)
+
+
+def run_large(ctx, batch, rng):
+    from harness.gen import c03_pipe as P
+    do_pstype(ctx, batch)
+    for i in range((24 if ctx.quick else 240) * ctx.scale):
+        run_pipe(ctx, batch, P.gen_case(rng, large=True, rephase=(i % 3 == 1), mixed=(i % 5 == 4)))
+    batch.flush()
 
 
 def exhaustive(ctx, batch):
